@@ -240,6 +240,10 @@ pub fn in_class(class: &str, l: &srp::Login) -> bool {
         "B-high-zero-2" => l.b_pub[31] == 0 && l.b_pub[30] == 0,
         "v-high-zero-1" => l.v[31] == 0 && l.v[30] != 0,
         "v-high-zero-2" => l.v[31] == 0 && l.v[30] == 0,
+        "u-low-zero-2" => l.u[0] == 0 && l.u[1] == 0,
+        "u-high-zero-2" => l.u[19] == 0 && l.u[18] == 0,
+        "x-low-zero-2" => l.x[0] == 0 && l.x[1] == 0,
+        "x-high-zero-2" => l.x[19] == 0 && l.x[18] == 0,
         "base-negative" => l.base_negative,
         "base-nonnegative" => !l.base_negative,
         _ => false,
@@ -312,7 +316,7 @@ pub fn run(o: Oracle, tier: Tier, seed: u64) -> i32 {
         *classes_seen.entry(class.clone()).or_insert(0u64) += 1;
         run_case(&report, o, &cl, case, true, true);
     }
-    for need in ["S-low-zero-1", "S-low-zero-2", "S-low-zero-3", "S-high-zero-1", "S-high-zero-2", "A-high-zero-1", "B-high-zero-1", "v-high-zero-1", "base-negative", "base-nonnegative"] {
+    for need in ["u-low-zero-2", "u-high-zero-2", "x-low-zero-2", "x-high-zero-2", "S-low-zero-1", "S-low-zero-2", "S-low-zero-3", "S-high-zero-1", "S-high-zero-2", "A-high-zero-1", "B-high-zero-1", "v-high-zero-1", "base-negative", "base-nonnegative"] {
         if !classes_seen.contains_key(need) {
             mc::util::machinery_error(&format!("no stored witness for promised class {need}"));
         }
